@@ -10,6 +10,7 @@ import Driver.Path
 import Driver.Annotations
 import Driver.Names
 import Driver.Version
+import Driver.Validate
 open Lean
 
 def dispatch (j : Json) : Except String Json := do
@@ -20,6 +21,7 @@ def dispatch (j : Json) : Except String Json := do
   | "annot" => Driver.Annotations.handle j
   | "names" => Driver.Names.handle j
   | "version" => Driver.Version.handle j
+  | "validate" => Driver.Validate.handle j
   | _ => throw s!"unknown stream {stream}"
 
 partial def loop (hin hout : IO.FS.Stream) : IO Unit := do
